@@ -1,4 +1,5 @@
 import PyCraft.Props.C10
+import PyCraft.Props.C10Wire
 #print axioms PyCraft.C10.enc_reply_then_encrypted
 #print axioms PyCraft.C10.threshold_applies_after
 #print axioms PyCraft.C10.threshold_none_before
@@ -8,3 +9,10 @@ import PyCraft.Props.C10
 #print axioms PyCraft.C10.success_enters_play
 #print axioms PyCraft.C10.disconnect_surfaces
 #print axioms PyCraft.C10.join_iff
+#print axioms PyCraft.C10Wire.wire_prefix_plain_suffix_cipher
+#print axioms PyCraft.C10Wire.wire_switch_at_reply
+#print axioms PyCraft.C10Wire.server_recovers_outbox
+#print axioms PyCraft.C10Wire.server_key_agreement
+#print axioms PyCraft.C10Wire.outbox_packets_writable
+#print axioms PyCraft.C10Wire.parts_read_by_readAll
+#print axioms PyCraft.C10Wire.wrong_switch_point_detected
